@@ -381,6 +381,19 @@ def run_case(ctx, i, rng):
         st = gen_ir.shape_stats(n)
         ck = Checker(ctx, rng, policy, st)
         roots = roots_of(rng, n, must=[graft])
+        # a second netlist that shares name, identifier and user-key value with the first: roots reaching both
+        n2 = sdn.Netlist(n.name)
+        for k_ in ("EDIF.identifier", "color"):
+            if k_ in n:
+                try:
+                    n2[k_] = n[k_]
+                except ValueError:
+                    pass
+        l2 = n2.create_library(n.libraries[0].name or "lib_of_twin")
+        d2 = l2.create_definition("twin_def")
+        d2.create_port("tp", pins=1)
+        roots.append(("TwoNetlists", [n, n2]))
+        roots.append(("TwoNetlists", [l2, n.libraries[0]]))
         for fname, (f, has_key, sels, has_rec) in NONH.items():
             for label, root in roots:
                 for sel in sels:
